@@ -43,7 +43,8 @@ def generate(rng, tier):
             burst.append([rng.choice([d for d in dests if d[0] != "L"]), rng.choice(PRIOS), serial])
     return {"posters": posters, "local": local, "dests": dests, "last_burst": burst,
             "periodic": rng.random() < 0.5,
-            "late_after": rng.randint(0, 6), "late_after2": rng.randint(0, 12), "shutdown_after": rng.choice([None, None, 3, 8, 15]),
+            "late_after": rng.randint(0, 6), "late_after2": rng.randint(0, 12),
+            "late_from": rng.choice(["agent", "agent", "driver"]), "shutdown_after": rng.choice([None, None, 3, 8, 15]),
             "opcode_p": rng.choice([0.0, 0.05, 0.2]), "line_p": rng.choice([0.0, 0.02, 0.1])}
 
 
@@ -76,6 +77,7 @@ def execute(case, tape):
     out = common.outcome()
     cfg = {"preempt_p": case["line_p"], "stall_p": tape.pick([0.0, 0.02])}
     feats = dict(opcode=case["opcode_p"] > 0, late="L" in case["dests"],
+                 late_from=case.get("late_from", "agent") if "L" in case["dests"] else "none",
                  early_shutdown=case["shutdown_after"] is not None)
     H = []                      # the history
     result = {}
@@ -124,6 +126,18 @@ def execute(case, tape):
                     recs[name].start()
                     H.append(("registered", name, ev()))
                 return fn
+
+            def register_late(name):
+                if case.get("late_from", "agent") == "agent":
+                    b.on_agent("A", register(name))
+                    return
+                # Agent.add_computation called by another thread while the agent runs (the
+                # public API allows it).  The recorder is marked running beforehand so that
+                # nothing is buffered by the computation itself (that is C19's subject).
+                H.append(("register", name, ev()))
+                recs[name]._running = True
+                A.add_computation(recs[name])
+                H.append(("registered", name, ev()))
             for d in case["dests"]:
                 if d[0] != "L":
                     b.on_agent("A", register(d))
@@ -154,11 +168,11 @@ def execute(case, tape):
             if "L" in case["dests"]:
                 sim.block(lambda: posted[0] >= case["late_after"] or
                           all(t.state == threadsim.DONE for t in threads), 100.0)
-                b.on_agent("A", register("L"))
+                register_late("L")
             if "L2" in case["dests"]:
                 sim.block(lambda: posted[0] >= case.get("late_after2", 0) or
                           all(t.state == threadsim.DONE for t in threads), 100.0)
-                b.on_agent("A", register("L2"))
+                register_late("L2")
             if case["shutdown_after"] is None:
                 for t in threads:
                     t.join()
